@@ -181,6 +181,22 @@ type readerWithBackgroundTask struct {
 	task *backgroundTask
 }
 
+func (r *readerWithBackgroundTask) Read(p []byte) (int, error) {
+	n, err := r.ReadCloser.Read(p)
+	if err == io.EOF {
+		// Just like chunkReaderWithBackgroundTask, report failures
+		// of the background task at the end of the stream. This
+		// ensures the error is observed by readers that wrap this
+		// one (e.g., the ones applying ErrorHandlers), as those
+		// only inspect errors returned by Read().
+		<-r.task.completion
+		if taskErr := r.task.err; taskErr != nil {
+			return n, taskErr
+		}
+	}
+	return n, err
+}
+
 func (r *readerWithBackgroundTask) Close() error {
 	err := r.ReadCloser.Close()
 	<-r.task.completion
